@@ -78,6 +78,8 @@ def parse_out(line):
     t = s[2].split(); o["faces"] = [tuple(int(x) for x in t[i:i + 4]) for i in range(0, len(t), 4)]
     t = s[3].split(); o["edges"] = [tuple(int(x) for x in t[i:i + 4]) for i in range(0, len(t), 4)]
     t = s[4].split(); o["forces"] = [[unhx(x) for x in t[i:i + 3]] for i in range(0, len(t), 3)]
+    if len(s) > 5:
+        t = s[5].split(); o["forces_turned"] = [[unhx(x) for x in t[i:i + 3]] for i in range(0, len(t), 3)]
     return o
 
 
@@ -160,6 +162,12 @@ def oracle(c, o, rng):
         x = cross(r, F[i]); tq = [tq[k] + x[k] for k in range(3)]; tqabs += norm(r) * norm(F[i])
     if norm(tq) > tol * tqabs * 10:
         return "net_torque_zero(%s): |sum r x f| / sum|r||f| = %.3g" % (term, norm(tq) / tqabs)
+    if "forces_turned" in o:
+        # the same cell object evaluated again after a quarter turn of its nodes about z (exact): F(Rx) = R F(x)
+        for i in live:
+            fx, fy, fz = F[i]; g = o["forces_turned"][i]
+            if norm([g[0] + fy, g[1] - fx, g[2] - fz]) > (1e-7 + 1e-12 * maxc / size + 3e-7 * conditioning(o)) * sumabs + 1e-300:
+                return "internal_forces_follow_the_cell_when_it_is_turned_in_place(%s): node %d gets %s after the quarter turn, R F(x) = %s" % (term, i, g, [-fy, fx, fz])
     faces = [(a, b, cc) for a, b, cc, ty in o["faces"] if ty >= 0]
     if c["term"] == 0 and o["P"] != 0:
         # pressure force on node i = P * dV/dx_i ; V is affine in each node: exact difference quotient
